@@ -457,6 +457,22 @@ where
                     let (f, g) = if c.rng.chance(1, 7) {
                         c.knob("oh:compose-type-mismatch");
                         (gen::oh(&mut c.rng, &p), gen::oh(&mut c.rng, &p))
+                    } else if c.rng.chance(1, 8) {
+                        // near miss: equal arities, ONE boundary label differs (a fresh node of g)
+                        c.knob("oh:compose-one-label-differs");
+                        let (f, mut g) = gen::composable_pair(&mut c.rng, &p);
+                        if !g.s.table.is_empty() {
+                            let i = c.rng.below(g.s.table.len());
+                            let lab = g.h.w[g.s.table[i]] + 1;
+                            g.h.w.push(lab);
+                            let n2 = g.h.w.len();
+                            g.s.table[i] = n2 - 1;
+                            g.s.target = n2;
+                            g.t.target = n2;
+                            g.h.s.values.target = n2;
+                            g.h.t.values.target = n2;
+                        }
+                        (f, g)
                     } else {
                         gen::composable_pair(&mut c.rng, &p)
                     };
